@@ -199,36 +199,25 @@ class Check:
     # -- discharge ---------------------------------------------------------------------
     def finish(self):
         known = load_known()
-        tasks = []
         meta = {}
-        # deduplicate identical safety goals (same facts/pc ids + goal id)
+        specs = []
+        obs = []
+        dump = os.environ.get("PYVC_DUMP")
         for ob in self.obligations:
-            try:
-                full, names = discharge.to_smt2(ob, ob.meta.get("watches") if ob.meta else None)
-                text, _ = discharge.to_smt2(ob, ob.meta.get("watches") if ob.meta else None, filtered=True)
-            except z3.Z3Exception as e:
-                self.engine_errors.append("smt2 export %s: %s" % (ob.name, e))
-                continue
-            to = (ob.meta or {}).get("timeout") or self.timeout
-            opts = {"steps": (ob.meta or {}).get("steps"), "full_text": full if full != text else None}
-            if (ob.meta or {}).get("expect", "proved") == "proved":
-                tt = []
-                for mt in (0, 1):
-                    t_, _ = discharge.to_smt2(ob, None, maxtier=mt)
-                    if t_ != text and (not tt or tt[-1] != t_):
-                        tt.append(t_)
-                opts["tier_texts"] = tt
-            if ob.meta and ob.meta.get("expect") == "refuted":
-                opts["steps"] = ["z3"]
+            m = ob.meta or {}
+            to = m.get("timeout") or self.timeout
+            steps = m.get("steps")
+            tiers = m.get("expect", "proved") == "proved"
+            if m.get("expect") == "refuted":
+                steps = ["z3"]
                 to = min(to, 5.0)
-            dump = os.environ.get("PYVC_DUMP")
-            if dump and re.search(dump, ob.name):
-                os.makedirs("/var/tmp/pyvc_dump", exist_ok=True)
-                open("/var/tmp/pyvc_dump/" + _san(ob.name) + ".smt2", "w").write(text)
-            tasks.append((ob.name, text, to, opts))
-            meta[ob.name] = (ob, names, text)
+            obs.append(ob)
+            specs.append((to, steps, tiers, bool(dump and re.search(dump, ob.name))))
         t1 = time.time()
-        results = discharge.run_all(tasks)
+        results = discharge.run_obligations(obs, specs)
+        for ob in obs:
+            r = results.get(ob.name) or {}
+            meta[ob.name] = (ob, r.get("names") or [], r.get("head") or "")
         solver_wall = time.time() - t1
 
         violations, undecided, known_hits, vacuous = [], [], [], []
